@@ -187,6 +187,7 @@ class SymRun:
         verdict, m = self.ctx.refute(cond)
         if verdict == 'proved':
             self.st['discharged'] += 1
+            self._sample_for_second_opinion(cond, label)
             return True
         if verdict == 'unknown':
             self.st['undecided'].append(label)
@@ -206,6 +207,22 @@ class SymRun:
                 return None
         self.st['thin'].append(label)
         return None
+
+    def _sample_for_second_opinion(self, cond, label):
+        """keep a few proved non-trivial obligations as SMT-LIB text (path condition + negated goal); the driver re-discharges them with cvc5"""
+        n = self.cfg.get('second_opinion', 0)
+        if not n or len(self.st['smt2_samples']) >= n:
+            return
+        import z3
+        try:
+            s2 = z3.Solver()
+            s2.add(self.ctx.solver.assertions())
+            s2.add(z3.Not(cond.t))
+            txt = s2.to_smt2()
+            if len(txt) < 400000:
+                self.st['smt2_samples'].append(dict(label=label, smt2=txt))
+        except Exception:
+            pass
 
     def fail(self, label, detail=''):
         """unconditional violation on this (feasible) path."""
@@ -377,7 +394,7 @@ def new_stats():
     return dict(paths=0, completed=0, infeasible=0, unsupported=0, bound_exceeded=0, ended={}, errors=[], queries=0,
                 tsolve=0.0, unknown=0, obligations=0, discharged=0, trivial=0, undecided=[], thin=[], violations=[],
                 reach_witnesses=0, maxdeg=0, maxdepth=0, decisions=0, witnesses=[], samples=[], incomplete=False, left=0,
-                unsupported_msgs=[])
+                unsupported_msgs=[], smt2_samples=[])
 
 
 def explore(module, hname, cfg, max_paths=200000, max_seconds=3600, timeout_ms=10000, seed=0, witness_cap=6,
@@ -429,10 +446,21 @@ def explore(module, hname, cfg, max_paths=200000, max_seconds=3600, timeout_ms=1
         except RecursionError:
             st['unsupported'] += 1
         except Exception as e:
+            rec = dict(error=repr(e)[:300], etype=type(e).__name__, tb=traceback.format_exc()[-1200:], trace_len=len(ctx.trace), in_bt=_raised_in_bt())
+            # keep a model of the path: if unshimmed bt raises the same exception on it, the driver reports it as a violation
+            try:
+                import z3
+                if len(st['errors']) < 6 and ctx.check() == z3.sat:
+                    m = ctx.lattice_model(z3.BoolVal(True)) or ctx.solver.model()
+                    inputs, ufs = ctx.model_inputs(m)
+                    rec['inputs'] = {k: _ser(x) for k, x in inputs.items()}
+                    rec['ufs'] = {k: [[[_ser(a) for a in args], _ser(r)] for args, r in tab] for k, tab in ufs.items()}
+            except Exception:
+                pass
             if len(st['errors']) < 10:
-                st['errors'].append(dict(error=repr(e)[:300], tb=traceback.format_exc()[-1200:], trace_len=len(ctx.trace)))
+                st['errors'].append(rec)
             else:
-                st['errors'].append(dict(error=repr(e)[:100]))
+                st['errors'].append(dict(error=repr(e)[:100], etype=type(e).__name__))
         work.extend(ctx.pending)
         st['queries'] += ctx.nq
         st['tsolve'] += ctx.tsolve
@@ -462,6 +490,11 @@ def explore(module, hname, cfg, max_paths=200000, max_seconds=3600, timeout_ms=1
     st['wall'] = time.time() - t0
     Ctx.cur = None
     return st
+
+
+def _raised_in_bt():
+    tb = traceback.extract_tb(sys.exc_info()[2])
+    return bool(tb) and '/bt/' in tb[-1].filename
 
 
 def _where():
